@@ -366,7 +366,8 @@ def run(chk: common.Check):
               "rotation regenerated and validated bit for bit incl. axis-parallel vectors. Search: audit of every added hydrogen (single heavy parent, "
               f"tabulated length +-{LEN_TOL}, siblings >= 0.5 A, >= 0.75 A from the parent's neighbours, complements of complete residues, no failed-"
               "protonation warning) in deposited and rotated poses and with a one-neighbour bond exactly along +-x/+-y/+-z, default and "
-              f"--protonate-all; protein N-H hydrogens mapped back agree within {POS_TOL} A. distinct = poses"),
+              f"--protonate-all; protein N-H hydrogens mapped back agree within {POS_TOL} A. distinct = poses"
+              " Added in rounds 4-6: sp-hybridised ligand atoms, a zinc-bound histidine under --protonate-all, the program's own hydrogens fed back with --keep-protons, a free cysteine under --protonate-all against an independent copy of the X-H table."),
         assumptions=["which atoms get how many hydrogens (valence / steric-number bookkeeping, pi-electron tables) is not modelled: the audit checks the outcome",
                      "hetero-group terminal hydrogens are frame dependent by design (C04) and are excluded from the orientation comparison"],
         trusted=["py2coq translator (validated each run)", "stdlib real-number axioms"])
